@@ -203,7 +203,7 @@ def run(tier, seed, replay=None):
     cpath = os.path.join(ROOT, "corpus", "C18.txt")
     if os.path.exists(cpath):
         corpus = [l.strip() for l in open(cpath) if l.strip() and not l.startswith("#")]
-    cmds = ["one %s" % c for c in corpus] + ["deep 20"]
+    cmds = (["file %s" % cpath] if corpus else []) + ["deep 20"]
     shards = max(4, min(NPROC, 16))
     if tier == "quick":
         cmds += ["exhaustive %d 0 1" % n for n in (0, 1, 2, 3)] + ["exhaustive 4 %d 4" % k for k in range(4)]
